@@ -102,6 +102,9 @@ func c17lScan() (settled, inInner bool, adj int) {
 			hdr = g[:i]
 		}
 		inAcquire := strings.Contains(hdr, "[select") && strings.Contains(g, "semaphore.(*Weighted).Acquire")
+		if isAdj && strings.Contains(hdr, "[chan receive") && strings.Contains(g, "semaphore.(*Weighted).Acquire") {
+			inAcquire = true // a weight larger than the semaphore's size: parked for ever in `<-ctx.Done()`
+		}
 		if isAdj {
 			if inAcquire {
 				adj++
@@ -243,6 +246,8 @@ func c17lExec(raw json.RawMessage) interface{} {
 		st.mu.Unlock()
 		obs.Snaps = append(obs.Snaps, sn)
 	}
+	bigSeen := false
+	lastSet := in.Cap0
 	for i, op := range in.Ops {
 		switch op.Op {
 		case "dial":
@@ -271,9 +276,26 @@ func c17lExec(raw json.RawMessage) interface{} {
 				c.Close()
 			}
 		case "set":
-			if op.N > 1000 {
+			// capacities near maxCapacity: only between settled, quiet snapshots, and only shrinks afterwards
+			// (a grow next to a pending / parked shrink would make Weighted.Release panic, see the sem harness)
+			prevRace := i > 0 && in.Ops[i-1].Race
+			quiet := true
+			if c17IsBig(int64(op.N)) || bigSeen {
+				_, _, adj := c17lScan()
+				quiet = adj == 0
+			}
+			switch {
+			case op.N > 1000 && !c17IsBig(int64(op.N)):
 				skipped = append(skipped, i)
-			} else {
+			case (c17IsBig(int64(op.N)) || bigSeen) && (op.Race || prevRace || !quiet):
+				skipped = append(skipped, i)
+			case bigSeen && op.N > lastSet:
+				skipped = append(skipped, i)
+			default:
+				if c17IsBig(int64(op.N)) {
+					bigSeen = true
+				}
+				lastSet = op.N
 				l.SetMaxConnection(op.N)
 			}
 		default:
@@ -326,7 +348,7 @@ func c17lExec(raw json.RawMessage) interface{} {
 	case <-accDone:
 	case <-time.After(40 * time.Second):
 	}
-	for i := 0; i < 64; i++ {
+	for i := 0; i < 64 && !bigSeen; i++ {
 		_, ws := c17lPeek(l)
 		if len(ws) == 0 {
 			break
@@ -339,7 +361,48 @@ func c17lExec(raw json.RawMessage) interface{} {
 	return obs
 }
 
+
+// capacities at and beyond maxCapacity (20 000 000): the clamp of SetMaxCount
+var c17BigCaps = []int64{19999999, 20000000, 20000001, 25000000, 4294967295}
+
+func c17IsBig(n int64) bool {
+	for _, b := range c17BigCaps {
+		if n == b {
+			return true
+		}
+	}
+	return false
+}
+
+// c17lGenBig: grow to a capacity at / beyond maxCapacity, then shrink below usage, then closes and dials
+func c17lGenBig(r *verifh.Rand) interface{} {
+	in := c17lInput{Cap0: uint32(r.PickInt(1, 2, 3))}
+	dials := 0
+	for k := r.Range(0, 3); k > 0; k-- {
+		in.Ops = append(in.Ops, c17lOp{Op: "dial"})
+		dials++
+	}
+	in.Ops = append(in.Ops, c17lOp{Op: "set", N: uint32(c17BigCaps[r.Intn(len(c17BigCaps))])})
+	for k := r.Range(1, 5); k > 0; k-- {
+		in.Ops = append(in.Ops, c17lOp{Op: "dial"})
+		dials++
+	}
+	in.Ops = append(in.Ops, c17lOp{Op: "set", N: uint32(r.Range(0, 3))})
+	for k := r.Range(2, 10); k > 0; k-- {
+		if r.Intn(2) == 0 {
+			in.Ops = append(in.Ops, c17lOp{Op: "dial"})
+			dials++
+		} else {
+			in.Ops = append(in.Ops, c17lOp{Op: "close", K: r.Intn(dials)})
+		}
+	}
+	return in
+}
+
 func c17lGen(r *verifh.Rand, i int) interface{} {
+	if r.Intn(15) == 0 {
+		return c17lGenBig(r)
+	}
 	in := c17lInput{Cap0: uint32(r.PickInt(0, 1, 1, 2, 2, 3, 4))}
 	n := r.Range(4, 28)
 	dials := 0
